@@ -245,6 +245,7 @@ def run(ctx):
     _virtual_inference(ctx)
     _default_base_access(ctx)
     _by_name_keys(ctx)
+    _base_specifiers(ctx)
 
 
 def _contains(tree, node):
@@ -557,3 +558,43 @@ def _by_name_keys(ctx):
             ctx.ob("R05.7", "%s|%s|key" % (f.name, fl.split("::")[-1]), not bad, f.loc(c),
                    "%s is keyed by %s" % (fl.split("::")[-1], "a globally scoped name" if not bad else "%s: members of different classes share it" % ", ".join(bad)))
     ctx.floor("R05.7", "by-name table accesses with a traceable key", n, 8)
+
+
+def _base_specifiers(ctx):
+    """R05.8: what the grammar hands to append_derivation() for `: [virtual] [access] Base`: the access named by the
+    keyword (V_unknown when none is written - R05.6 then applies the class-key default) and is_virtual exactly when the
+    production contains KW_VIRTUAL; and every combination of {virtual, no virtual} x {public, protected, private, none}
+    in either keyword order has an alternative."""
+    from .. import grammar as GR
+    import re
+    db = ctx.db
+    ctx.rule("R05.8", "each alternative of base_specification calls append_derivation($name, <access of its keyword | V_unknown>, <true iff KW_VIRTUAL occurs>); all keyword combinations are covered")
+    g = GR.Grammar(db.meta["grammar"])
+    alts = g.rules.get("base_specification")
+    if not alts:
+        ctx.broken("grammar: base_specification not found")
+    ACC = {"KW_PUBLIC": "V_public", "KW_PROTECTED": "V_protected", "KW_PRIVATE": "V_private"}
+    seen = set()
+    for a in alts:
+        syms = [x for x in a.syms if x != "@action"]
+        kws = [x for x in syms if x.startswith("KW_")]
+        names = [i + 1 for i, x in enumerate(syms) if not x.startswith("KW_")]
+        m = re.search(r"append_derivation\(\s*\$(\d+)\s*,\s*(V_\w+)\s*,\s*(true|false)\s*\)", a.action or "")
+        site = "src/cppparser/cppBison.yxx:%d" % a.line
+        inst = "base_specification|%s" % ("_".join(kws) or "plain")
+        if not m:
+            ctx.ob("R05.8", inst, False, site, "action does not call append_derivation($n, V_x, bool): %s" % (a.action or "").strip()[:60])
+            continue
+        want_acc = next((ACC[k] for k in kws if k in ACC), "V_unknown")
+        want_virt = "true" if "KW_VIRTUAL" in kws else "false"
+        ok = int(m.group(1)) in names and m.group(2) == want_acc and m.group(3) == want_virt
+        seen.add((want_virt == "true", want_acc, tuple(kws)))
+        ctx.ob("R05.8", inst, ok, site, "`%s` records (%s, virtual=%s); the keywords say (%s, virtual=%s)" % (" ".join(syms), m.group(2), m.group(3), want_acc, want_virt))
+    for virt in (False, True):
+        for acc in ("V_unknown", "V_public", "V_protected", "V_private"):
+            have = any(v == virt and a == acc for v, a, _ in seen)
+            ctx.ob("R05.8", "base_specification|covers|%s%s" % ("virtual+" if virt else "", acc), have, "src/cppparser/cppBison.yxx:%d" % alts[0].line,
+                   "%s%s base is %s" % ("virtual " if virt else "", acc[2:] if acc != "V_unknown" else "unspecified-access", "accepted" if have else "a syntax error: no alternative"))
+    # cross-check with the compiled parser: the same number of append_derivation calls
+    calls = sum(1 for f in db.functions if f.file.endswith("cppBison.cxx") for c in f.walk() if c.get("k") == "call" and callee_short(c) == "append_derivation")
+    ctx.ob("R05.8", "base_specification|reader-agrees-with-compiler", calls == len(alts), "src/cppparser/cppBison.yxx:%d" % alts[0].line, "%d alternatives read from the grammar, %d append_derivation calls in the generated parser" % (len(alts), calls))
